@@ -175,7 +175,10 @@ def alpha(o: Any, conv=num) -> dict:
 #   "default"  dense data F-contiguous, matrices / subscript arrays C-contiguous (what np.array gives)
 #   "swapped"  dense data C-contiguous, matrices / subscript / value arrays F-contiguous
 #   "strided"  every array is a non-contiguous view into a larger buffer
-LAYOUTS = ("default", "swapped", "strided")
+#   "grown"    dense tensors are built from a leading block and completed by assignment beyond the current shape (the
+#              library then reallocates: the stored array is C-ordered although the object reports order F); other
+#              arrays as in "default"
+LAYOUTS = ("default", "swapped", "strided", "grown")
 _LAYOUT = "default"
 
 
@@ -205,6 +208,7 @@ def lay(a: np.ndarray, dense: bool = False) -> np.ndarray:
         return _strided(a)
     if _LAYOUT == "swapped":
         return np.ascontiguousarray(a) if dense else np.asfortranarray(a)
+    # "default" and "grown"
     return np.asfortranarray(a) if dense else np.ascontiguousarray(a)
 
 
@@ -230,6 +234,14 @@ def _dt(values, dtype):
 def g_dense(v: dict, dtype=float):
     dtype = _dt(v["v"], dtype)
     shape = tuple(v["shape"])
+    if _LAYOUT == "grown" and shape and shape[-1] >= 2 and all(s >= 1 for s in shape):
+        full = np.array(v["v"], dtype=dtype).reshape(shape, order="F")
+        head = tuple([slice(None)] * (len(shape) - 1) + [slice(0, shape[-1] - 1)])
+        T = ttb.tensor(np.asfortranarray(full[head]).copy())
+        tail = tuple([slice(None)] * (len(shape) - 1) + [shape[-1] - 1])
+        T[tail] = full[tail] if len(shape) > 1 else float(full[-1]) if dtype is float else full[-1]
+        assert tuple(int(x) for x in T.shape) == shape and np.array_equal(T.data, full), "gamma: grown tensor differs"
+        return T
     data = lay(np.array(v["v"], dtype=dtype).reshape(shape, order="F"), dense=True) if shape else np.array([])
     return ttb.tensor(data, shape)
 
